@@ -426,6 +426,24 @@ func (a *mrAnalysis) classify() (bool, []string, string) {
 			}
 		}
 	}
+	// the blocks run on a break are not part of the loop body: anything they take from the body
+	// (the element visited when the loop was left) depends on the iteration order
+	for b := range s.Body {
+		for _, in := range b.Instrs {
+			v, ok := in.(ssa.Value)
+			if !ok || v.Referrers() == nil {
+				continue
+			}
+			for _, r := range *v.Referrers() {
+				if r.Block() != nil && !s.Body[r.Block()] {
+					if _, isPhi := r.(*ssa.Phi); isPhi && !a.iterDep[v] {
+						continue
+					}
+					return false, idioms, fmt.Sprintf("a value computed inside the loop (for the element visited last) is used after leaving it at %s", pos(r))
+				}
+			}
+		}
+	}
 	if len(idioms) == 0 {
 		add("no effects")
 	}
